@@ -177,14 +177,18 @@ func shrinkAndWrite(bin, verif, work string, base RunSpec, r *RunResult, v Viola
 		sort.Slice(ks, func(i, j int) bool {
 			rank := func(s string) int {
 				switch {
-				case s == "prog":
+				case s == "faults":
 					return 0
-				case s == "sched":
+				case strings.HasPrefix(s, "rpc"):
 					return 1
-				case s == "net":
+				case s == "cfg":
 					return 2
+				case s == "sched":
+					return 3
+				case s == "net":
+					return 4
 				}
-				return 3
+				return 5
 			}
 			if rank(ks[i]) != rank(ks[j]) {
 				return rank(ks[i]) < rank(ks[j])
@@ -212,9 +216,6 @@ func shrinkAndWrite(bin, verif, work string, base RunSpec, r *RunResult, v Viola
 		before := tapeWeight(cur)
 		// whole-stream zeroing for the auxiliary streams
 		for _, st := range streams() {
-			if st == "prog" {
-				continue
-			}
 			t := cloneTapes(cur)
 			delete(t, st)
 			accept(t)
@@ -250,7 +251,7 @@ func shrinkAndWrite(bin, verif, work string, base RunSpec, r *RunResult, v Viola
 				}
 			}
 			// delete blocks (program tape: drops ops / rpcs)
-			if st == "prog" || st == "sched" {
+			if st == "sched" {
 				for size := 8; size >= 1; size /= 2 {
 					for off := 0; off+size <= len(cur[st]); {
 						t := cloneTapes(cur)
